@@ -405,7 +405,17 @@ def to_model(case):
     if case['kind'] == 'tree':
         reqs.append({'op': 'condtree', 'blocks': [model_block(b) for b in case['blocks']],
                      'syms': [{'name': p['name'], 'v': p['v']} for p in case['presyms']]})
+    if text_route(case):
+        # the very source text, parsed by the Lean front end (directives, conditions, quoted words, #define values)
+        tr = P.to_text_request(CFG, [(('main.asm' if i == 0 else f'inc{i}.asm'), render_file(f)) for i, f in enumerate(files)])
+        tr['cfg']['preSyms'] = cfg['preSyms']
+        reqs.append(tr)
     return reqs
+
+
+def text_route(case):
+    # lines the model has no statement for (garbage inside an unselected branch) are left to the structured route
+    return not any(s['k'] == 'raw' for f in case_files(case) for s in f)
 
 
 def judge(case, ir, mrs):
@@ -413,6 +423,13 @@ def judge(case, ir, mrs):
     asm = mrs[0]
     texts = render_file(case_files(case)[0])
     det = f'presyms={case["presyms"]} asm={texts!r}'[:1400]
+    if text_route(case):
+        mt, mrs = mrs[-1], mrs[:-1]
+        if asm.get('err') != 'other' and (('err' in mt) != ('err' in asm) or mt.get('image') != asm.get('image')):
+            return {'verdict': Verdict.CORR, 'tags': tags,
+                    'detail': f'model front end: text route {mt.get("err") or mt.get("image")} != structured route '
+                              f'{asm.get("err") or asm.get("image")}; ' + det}
+        tags.append('text-route=structured-route')
     actual = impl.fbytes(ir, 'out.bin') if ir['status'] == 'ok' else None
     if ir['status'] == 'timeout':
         return {'verdict': Verdict.VIOLATION, 'detail': 'no termination; ' + det, 'tags': tags}
